@@ -5,8 +5,8 @@ package c07
 import (
 	"bytes"
 	"crypto"
-	cryptorand "crypto/rand"
 	stded "crypto/ed25519"
+	cryptorand "crypto/rand"
 	"crypto/sha512"
 	"fmt"
 	"io"
@@ -21,10 +21,11 @@ import (
 
 func init() {
 	fw.Register(&fw.Prop{
-		ID:       "C07",
-		Builds:   []string{"default", "386"}, // the 386 build runs 1/4 of the random classes on a 32-bit target
-		Scale386: 4,
-		Parallel: 4, // cases are judged on 4 goroutines per shard: the library functions are stateless, shared state inside them shows up as wrong verdicts
+		ID:                  "C07",
+		DeadlockIsViolation: true,                       // the calls of this property are synchronous functions of their inputs: a call blocked for good inside the library is a violation
+		Builds:              []string{"default", "386"}, // the 386 build runs 1/4 of the random classes on a 32-bit target
+		Scale386:            4,
+		Parallel:            4, // cases are judged on 4 goroutines per shard: the library functions are stateless, shared state inside them shows up as wrong verdicts
 		Rule: "(seed, message) pairs: seeds random / all-zero / all-0xff / single-bit; messages of every length 0..2400 (both SHA-512 padding regimes of prefix||M and R||A||M, and beyond any plausible fixed-size buffer), lengths around 2^10..2^17, and random 1..64 KiB. For each pair the monitor compares NewKeyFromSeed, Public, Seed, Sign (twice), PrivateKey.Sign(Hash(0)), GenerateKey(reader) byte for byte with crypto/ed25519 and with the big-integer RFC 8032 signer, checks Verify accepts, pre-hashed options are refused and short readers fail; GenerateKey(nil) is called with crypto/rand.Reader replaced (under a lock) by a source delivering known bytes, or failing early, and must behave like crypto/ed25519.GenerateKey(nil). The seed and message are passed as windows into larger buffers (pattern behind the length must survive; the buffers are wiped afterwards and every result handed out must stay what it was), and unrelated Verify calls that are rejected at every stage (undecodable R, undecodable key, S>=L, wrong length) or accepted are interleaved on the same goroutine between the calls. " +
 			"Non-trivial: distinct (seed, len(msg)) pairs (all cases).",
 		Assumptions: []string{"crypto/ed25519 and SHA-512 of the Go standard library", "the RFC 8032 model in harness/oracle/ed (self-tested against RFC 8032 vectors)"},
